@@ -156,6 +156,16 @@ def check_case(torch, fn, shape, start, end, f, valid, strided=False):
     return msgs, len(out), tuple(sig)
 
 
+def nonflat_accepted(torch, fn, shape, start, end, vshape):
+    try:
+        out = fn(torch.zeros(end - start).view(*vshape), torch.Size(shape), start, end)
+    except ValueError:
+        return None
+    except Exception as e:
+        return f"non-flat shard of shape {tuple(vshape)}: raised {type(e).__name__} instead of ValueError"
+    return f"non-flat shard of shape {tuple(vshape)} accepted (returned {len(out)} blocks); it must be rejected with ValueError"
+
+
 def _fns():
     from distributed_shampoo.utils.shampoo_fsdp_distributor import FSDPDistributor
     from distributed_shampoo.utils.shampoo_hsdp_distributor import HSDPDistributor
@@ -217,6 +227,14 @@ def run_unit(unit):
                     for m in msgs[:2]:
                         res["violations"].append({"case": {"shape": shape, "start": start, "end": end, "copy": name}, "msg": f"{name} shape={shape} [{start},{end}): {m}", "kind": m[:25]})
                     res["stats"]["max_pieces"] = max(res["stats"]["max_pieces"], npieces)
+                # a non-flat shard is rejected whatever the range is (the empty range included)
+                k = end - start
+                for name, fn in fns.items():
+                    for vshape in ((1, k), (k, 1)) + (((0, 2, 2),) if k == 0 else ()):
+                        bad = nonflat_accepted(torch, fn, shape, start, end, vshape)
+                        res["stats"]["must_raise_checked"] += 1
+                        if bad:
+                            res["violations"].append({"case": {"shape": shape, "start": start, "end": end, "copy": name, "nonflat_view": list(vshape)}, "msg": f"{name} shape={shape} [{start},{end}): {bad}", "kind": "nonflat-range"})
                 if sigs["fsdp"] != sigs["hsdp"]:
                     res["violations"].append({"case": {"shape": shape, "start": start, "end": end, "copy": "both"}, "msg": f"FSDP and HSDP copies disagree on shape={shape} [{start},{end}): {sigs['fsdp']} vs {sigs['hsdp']}", "kind": "copies"})
                 res["states"].append(common.h64(shape, start, end))
@@ -247,6 +265,9 @@ def replay(case):
             return []
         except Exception as e:
             return [f"raised {type(e).__name__}"]
+    if case.get("nonflat_view"):
+        bad = nonflat_accepted(torch, fns[names[0]], shape, case["start"], case["end"], tuple(case["nonflat_view"]))
+        return [bad] if bad else []
     if case.get("nonflat"):
         try:
             fns[names[0]](torch.zeros(n).view(n // 2 if n % 2 == 0 else n, -1), torch.Size(shape), 0, n)
